@@ -31,7 +31,9 @@ def _exc_info(exc):
 
 def _child(ctx, step, wfd, outp, errp):
     from . import seams, probes
+    from .executor import die_with_parent
 
+    die_with_parent()
     try:
         os.setpgid(0, 0)
     except OSError:
